@@ -20,6 +20,8 @@ def one(sid):
     if not os.path.isdir(d):
         d = os.path.join('/tmp/seed5', sid)
     if not os.path.isdir(d):
+        d = os.path.join('/tmp/seed6', sid)
+    if not os.path.isdir(d):
         d = os.path.join(out, sid)
     prop = sid.split('-')[0]
     p = subprocess.run(['/verif/scripts/seedcheck.sh', d, prop], capture_output=True, text=True)
@@ -48,8 +50,8 @@ def one(sid):
     meta = {
         'id': sid, 'property': prop,
         'change': needs[sid][0], 'needs_to_manifest': needs[sid][1],
-        'origin': 'written by an independent sub-agent given only the property text and a scratch worktree of /repo (nothing from /verif)' + ('; round 2: told which round-1 ideas to avoid' if sid[-1] in 'xy' else '; round 3: told which round-1 and round-2 ideas to avoid' if sid[-1] in 'pq' else '; round 4: told all 72 earlier ideas, asked for cross-function interactions' if sid[-1] in 'st' else '; round 5: no list of earlier ideas given (measures what a first idea by a fresh author looks like), two changes per author' if sid[-1] in 'uv' else ''),
-        'round': 2 if sid[-1] in 'xy' else 3 if sid[-1] in 'pq' else 4 if sid[-1] in 'st' else 5 if sid[-1] in 'uv' else 1,
+        'origin': 'written by an independent sub-agent given only the property text and a scratch worktree of /repo (nothing from /verif)' + ('; round 2: told which round-1 ideas to avoid' if sid[-1] in 'xy' else '; round 3: told which round-1 and round-2 ideas to avoid' if sid[-1] in 'pq' else '; round 4: told all 72 earlier ideas, asked for cross-function interactions' if sid[-1] in 'st' else '; round 5: no list of earlier ideas given (measures what a first idea by a fresh author looks like), two changes per author' if sid[-1] in 'uv' else '; round 6: told all earlier ideas for the property (second ideas), two changes per author' if sid[-1] in 'mn' else ''),
+        'round': 2 if sid[-1] in 'xy' else 3 if sid[-1] in 'pq' else 4 if sid[-1] in 'st' else 5 if sid[-1] in 'uv' else 6 if sid[-1] in 'mn' else 1,
         'files': {'patch': 'patch.diff', 'demonstration': demos, 'author_notes': 'NOTES.md'},
         'confirmed': confirmed,
         'what_was_run': [
